@@ -103,8 +103,12 @@ def install_ledger():
                   total_before=tb, total_after=ta, mine_before=mine_b, mine_after=mine_a, kept=out[1], fwd=forward, end=out[0])
         EV.append(ev)
         if tb is not None and ta is not None and mine_b is not None:
-            if abs((tb - ta) - (mine_b - mine_a)) > 1e-6:
+            # forward: what the task gives back becomes free again. backward: the work sits at the END of the slot, the
+            # unused head in front of it cannot be offered to anybody, so the slot total legitimately stays put.
+            if forward and abs((tb - ta) - (mine_b - mine_a)) > 1e-6:
                 ONLINE.append(("release-total-vs-own-entry", ev))
+            if (not forward) and abs(tb - ta) > 1e-6:
+                ONLINE.append(("backward-release-changed-slot-total", ev))
             if mine_a > mine_b + 1e-6:
                 ONLINE.append(("release-kept-more-than-granted", ev))
             if ta < -1e-6:
